@@ -13,10 +13,11 @@ EXTENDS Provenance, Json
 
 CONSTANTS N,            \* history length (<= 5)
           Hists,        \* history ids to explore
-          MaxLen,       \* cursor actions per behaviour
+          MaxLen,       \* cursor actions per behaviour on the unforked worldline
+          ForkMaxLen,   \* ... on a fork
           Forks,        \* fork ticks to explore in addition to the unforked worldline (subset of 0..N-1)
           ForkCkpts,    \* TRUE: also every checkpoint set on the fork's divergent suffix
-          PinOffsets,   \* pin_max_tick = history length + offset
+          PinOffsets,   \* pin_max_tick = history length + offset - 1 (cfg files cannot hold negative numbers)
           Roles,        \* subset of {"Reader", "Writer"}
           SeekBeyond,   \* TRUE: also seek to N + 1
           StepModes,    \* modes offered to "set mode, then step"
@@ -51,7 +52,7 @@ FORK == "fork"
 CurW(s) == IF s.fork = -1 THEN MAIN ELSE FORK
 
 Scenarios ==
-  {[h |-> h, C |-> C, fork |-> f, C2 |-> C2, pin |-> N + po, role |-> r] :
+  {[h |-> h, C |-> C, fork |-> f, C2 |-> C2, pin |-> N + po - 1, role |-> r] :
      h \in Hists, C \in SUBSET (0..N), f \in {-1} \cup Forks, C2 \in SUBSET (0..N), po \in PinOffsets, r \in Roles}
 
 ScenarioOk(s) ==
@@ -122,23 +123,24 @@ Pred(c, o, ticks) ==
   [tick |-> c.tick, mode |-> ModeJson(c.mode), res |-> o.res, path |-> o.path, from |-> o.from, err |-> o.err, at |-> o.at,
    st |-> StJson(c.mat.st), hl |-> Len(c.mat.hist), lm |-> c.mat.lm, ck |-> ticks]
 
+Bound == IF scn.fork = -1 THEN MaxLen ELSE ForkMaxLen
 Record(a) == trace' = Append(trace, [a |-> a, p |-> Pred(cur', last', CkptTicks(cur.w)')])
 
 PlaySeek(t) ==
-  /\ phase = "play" /\ Len(trace) < MaxLen
+  /\ phase = "play" /\ Len(trace) < Bound
   /\ SeekTo(t)
   /\ Record([k |-> "seek", t |-> t, m |-> ModeJson(Paused)])
   /\ UNCHANGED <<scn, phase>>
 
 PlayStep ==
-  /\ phase = "play" /\ Len(trace) < MaxLen
+  /\ phase = "play" /\ Len(trace) < Bound
   /\ Step
   /\ Record([k |-> "step", t |-> 0, m |-> ModeJson(Paused)])
   /\ UNCHANGED <<scn, phase>>
 
 \* cursor.mode = m; cursor.step(..)
 PlayStepWith(m) ==
-  /\ phase = "play" /\ Len(trace) < MaxLen
+  /\ phase = "play" /\ Len(trace) < Bound
   /\ LET r == StepResult([cur EXCEPT !.mode = m]) IN cur' = r.cur /\ last' = r.out
   /\ UNCHANGED storeVars
   /\ Record([k |-> "modestep", t |-> 0, m |-> ModeJson(m)])
@@ -146,7 +148,7 @@ PlayStepWith(m) ==
 
 \* provenance.add_checkpoint(w, ReplayCheckpoint::from_state(cursor.materialized_state()))
 PlayCkptHere ==
-  /\ phase = "play" /\ Len(trace) < MaxLen
+  /\ phase = "play" /\ Len(trace) < Bound
   /\ cur.tick \notin CkptTicks(cur.w)
   /\ AddCheckpoint(cur.w, cur.tick, cur.mat)
   /\ last' = [NoOutcome EXCEPT !.res = "ckpt"]
@@ -198,7 +200,7 @@ CaseJson ==
   [scn |-> [h |-> scn.h, n |-> N, C |-> SetSeq(scn.C), fork |-> scn.fork, C2 |-> SetSeq(scn.C2), pin |-> scn.pin, role |-> scn.role],
    steps |-> [i \in 1..Len(trace) |-> <<trace[i].a.k, trace[i].a.t, trace[i].a.m>>],
    pred |-> [i \in 1..Len(trace) |-> [trace[i].p EXCEPT !.ck = SetSeq(@)]]]
-Inv_Export == (Export /\ phase = "play" /\ Len(trace) = MaxLen) => PrintT(<<"CASE", ToJson(CaseJson)>>)
+Inv_Export == (Export /\ phase = "play" /\ Len(trace) = Bound) => PrintT(<<"CASE", ToJson(CaseJson)>>)
 
 \* coverage witnesses (must be reachable: the runner checks the exported paths instead of TLC coverage)
 =============================================================================
